@@ -1386,7 +1386,10 @@ class Exec:
             self.model_cache[name] = m
         if m:
             self.models_used.add(m.__name__ + ':' + name.split('<')[0][:60] if False else m.__name__)
-            return m(self, name, args, f)
+            r = m(self, name, args, f)
+            if r is not NotImplemented or 'body' not in f:
+                return r
+            # the model declined (outside its domain): run the real body
         if 'body' not in f:
             # tuple-variant / tuple-struct constructors used as functions
             rt = f.get('abi_ret')
